@@ -296,7 +296,7 @@ theorem addAttributes_ends {P : Nat → Prop} (stack : NsStack) (node : Path) (a
       · simp only [hrep, if_true]
         exact hab0.1
       · simp only [hrep]
-        by_cases hdup : (nameId == Env.xmlIdName && st.seenIds.contains ab.value) = true
+        by_cases hdup : (nameId == Env.xmlIdName && st.seenIds.contains (xmlIdValue nameId ab.value)) = true
         · simp only [hdup, if_true]
           exact hab0.2.1
         · simp only [hdup]
